@@ -97,6 +97,21 @@ func c09Check(c *ctx, name, p string, mustAccept bool) {
 	}
 }
 
+// c09MustAccept: for long texts that are sentences by construction (the complete recogniser is cubic in their length):
+// both entry points must accept them.
+func c09MustAccept(c *ctx, name, p string) {
+	c.eval()
+	v := parseBoth(p)
+	if v.panicked {
+		c.inconclusive("panic (C14's business)")
+		return
+	}
+	c.nontrivial(p)
+	if !v.nfaOK || !v.astOK {
+		c.violate(violation{Case: name, Input: p, Observed: fmt.Sprintf("nfa.Parse accepted=%v (%s), ast.Parse accepted=%v (%s)", v.nfaOK, v.nfaErr, v.astOK, v.astErr), Expected: "accepted: a sentence of the documented grammar by construction (alternation and grouping only)"})
+	}
+}
+
 func runC09(c *ctx) {
 	// (1) exhaustive short strings
 	alpha := []rune(`\|.?*+()[]{}$a0Ax-,:^ps1`)
@@ -166,6 +181,27 @@ func runC09(c *ctx) {
 	for _, r := range [][2]int{{3, 2}, {1, 0}, {10, 9}, {2, 1}} {
 		m := fmt.Sprintf("{%d,%d}", r[0], r[1])
 		bads = append(bads, bad{"a" + m, m}, bad{"(ab)" + m + "?", m}, bad{"x[a-c]" + m + "y", m}, bad{"." + m, m})
+	}
+	// counts around the largest machine integer: a minimum beyond it followed by a small maximum is a descending range
+	// (or, at best, an unusable count): never acceptable
+	for _, n := range []string{"9223372036854775808", "9223372036854775809", "9223372036854775810", "92233720368547758080", "18446744073709551616", "18446744073709551617", "009223372036854775808"} {
+		for _, atom := range []string{"a", "(ab)", "[0-9]"} {
+			bads = append(bads, bad{atom + "{" + n + ",5}", ""}, bad{atom + "{" + n + ",0}?", ""}, bad{"x" + atom + "{" + n + ",7}y", ""})
+		}
+	}
+	// long flat alternations and deep nesting are ordinary sentences
+	for _, n := range []int{100, 249, 250, 251, 252, 300, 500} {
+		var alts []string
+		for k := 0; k < n; k++ {
+			alts = append(alts, fmt.Sprintf("k%d", k))
+		}
+		if c.mine() {
+			c09MustAccept(c, fmt.Sprintf("flat-alternation-%d", n), strings.Join(alts, "|"))
+		}
+		if n <= 300 && c.mine() {
+			c09MustAccept(c, fmt.Sprintf("nesting-%d", n), strings.Repeat("(", n)+"a"+strings.Repeat(")", n))
+			c09MustAccept(c, fmt.Sprintf("nested-alternation-%d", n), strings.Repeat("(a|", n)+"b"+strings.Repeat(")", n))
+		}
 	}
 	// class names: only the documented ones are sentences
 	for _, n := range []string{"ASCII", "Ascii", "ascii", "UTF-8", "UTF8", "Any", "All", "Alpha", "Digit", "Word", "Space", "Blank", "Upper", "Lower", "Alnum", "XDigit", "Cntrl", "Print", "Graph", "Punct",
